@@ -1,0 +1,19 @@
+//go:build verif
+
+package directive
+
+import (
+	"github.com/jsightapi/jsight-schema-go-library/bytes"
+)
+
+// Read-only accessors used by the /verif correspondence harness.
+
+func VerifUnescapeParameter(b []byte) []byte { return unescapeParameter(bytes.Bytes(b)) }
+
+func (d *Directive) VerifKeywordCoords() Coords { return d.keywordCoords }
+
+func (c Coords) VerifEnd() bytes.Index { return c.end }
+
+func (d *Directive) VerifNamedParameters() map[string]string { return d.namedParameters }
+
+func (d *Directive) VerifIncludeTracer() IncludeTracer { return d.includeTracer }
